@@ -355,7 +355,11 @@ class CFGrid1DTopology(CFGridTopology):
                     category=ConventionViolationWarning,
                     stacklevel=4)
 
+        # Coordinates stored as integers would be averaged as integers,
+        # which rounds the midpoints and can overflow narrow types.
         values = coordinate.values
+        if not numpy.issubdtype(values.dtype, numpy.floating):
+            values = values.astype(numpy.float64)
         first_gap = values[1] - values[0]
         last_gap = values[-1] - values[-2]
         mid_points = numpy.concatenate([
